@@ -427,7 +427,9 @@ class Gen:
                 self.count("Sum(list mutated after the call)")
             return r
         if k < 0.49:
-            self.count("Initializer"); return initializer(np.array([rng.randint(1, 5), rng.randint(1, 5)], F32))
+            sh = rng.choice(((2,), (2,), (1,), ()))     # scalars and one-element tensors are different values (rank 0 vs rank 1)
+            self.count(f"Initializer{list(sh)}")
+            return initializer(np.array([rng.randint(1, 5), rng.randint(1, 5)], F32)[:sh[0]].reshape(sh) if sh != (2,) else np.array([rng.randint(1, 5), rng.randint(1, 5)], F32))
         if k < 0.51:
             self.count("Constant"); return op.const(np.array([rng.randint(1, 5), rng.randint(1, 5)], F32))
         if k < 0.53:
